@@ -423,6 +423,10 @@ def alookup (k : Char) : List (Char × Char) → Option Char
   | [] => none
   | (a, b) :: r => if a = k then some b else alookup k r
 
+def alookupS (k : Char) : List (Char × Str) → Option Str
+  | [] => none
+  | (a, b) :: r => if a = k then some b else alookupS k r
+
 /-- `compat.decodeUnicodeEscape`: one left-to-right pass of
     `\\([tbnrf"'\\])|\\(u[0-9A-Fa-f]{4}|U[0-9A-Fa-f]{8})`; `none` = `chr()` raises or gives a surrogate.
     Fuel = length of the input. -/
@@ -462,6 +466,10 @@ inductive Rd
   | error (e : Err)
   deriving DecidableEq, Repr
 
+def Rd.ofExcept : Except Err Term → Rd
+  | .ok t => .term t
+  | .error e => .error e
+
 /-- `from_n3` on the forms that are not quoted literals; `text` = the whole string -/
 def fromN3Node (E : Ext) (s : Str) : Rd :=
   match s with
@@ -476,11 +484,28 @@ def fromN3Node (E : Ext) (s : Str) : Rd :=
       | '{' :: _ => .unmodelled
       | '[' :: _ => .unmodelled
       | '_' :: ':' :: r => .term (.node .bnode r)
-      | '?' :: _ =>
-        match mkVar s with
-        | .ok t => .term t
-        | .error e => .error e
+      | '?' :: _ => Rd.ofExcept (mkVar s)
       | _ => if ':' ∈ s then .unmodelled else .term (.node .bnode s)
+
+/-- the quoted-literal branch of `from_n3` after `value, rest = s.rsplit(quotes, 1)` and
+    `value = value[len(quotes):]` -/
+def litFromParts (E : Ext) (normalize : Bool) (value rest : Str) : Rd :=
+  let mk (lang dt : Option Str) : Rd :=
+    match decodeEsc value with
+    | none => .error .valueError
+    | some v => Rd.ofExcept (mkLit E normalize v lang dt)
+  match rsplit1 ['^', '^'] rest with
+  | some (_, after) =>
+    match after, fromN3Node E after with
+    | [], _ => mk none none                      -- `from_n3("")` returns the default, None
+    | '"' :: _, _ => .unmodelled                 -- a quoted literal as datatype
+    | _, .term (.node _ d) => mk none (some d)   -- `URIRef(datatype)`
+    | _, .term (.lit d _ _) => mk none (some d)
+    | _, _ => .unmodelled
+  | none =>
+    match rest with
+    | '@' :: lang => mk (some lang) none
+    | _ => mk none none
 
 /-- `util.from_n3(s)` (default `normalize` = the module flag `rdflib.NORMALIZE_LITERALS`) -/
 def fromN3 (E : Ext) (normalize : Bool) (s : Str) : Rd :=
@@ -489,27 +514,7 @@ def fromN3 (E : Ext) (normalize : Bool) (s : Str) : Rd :=
     let q : Str := if isPrefix q3 s then q3 else ['"']
     match rsplit1 q s with
     | none => .error .valueError
-    | some (value, rest) =>
-      let value := value.drop q.length
-      let mk (lang dt : Option Str) : Rd :=
-        match decodeEsc value with
-        | none => .error .valueError
-        | some v =>
-          match mkLit E normalize v lang dt with
-          | .ok t => .term t
-          | .error e => .error e
-      match rsplit1 ['^', '^'] rest with
-      | some (_, after) =>
-        match after, fromN3Node E after with
-        | [], _ => mk none none                      -- `from_n3("")` returns the default, None
-        | '"' :: _, _ => .unmodelled                 -- a quoted literal as datatype
-        | _, .term (.node _ d) => mk none (some d)   -- `URIRef(datatype)`
-        | _, .term (.lit d _ _) => mk none (some d)
-        | _, _ => .unmodelled
-      | none =>
-        match rest with
-        | '@' :: lang => mk (some lang) none
-        | _ => mk none none
+    | some (value, rest) => litFromParts E normalize (value.drop q.length) rest
   | _ => fromN3Node E s
 
 /-- CPython `float()` as far as inf / nan are concerned: surrounding white space, a sign,
